@@ -229,6 +229,127 @@ def one_case(ctx, bench_client, root_s, root_t, idx, am_root, transport="pipe"):
                 pass
 
 
+BUFSIZES = [-1, 1, 64, 32768]
+
+
+def buffered_handle_case(ctx, client, root_s, root_t, idx, am_root, transport="pipe"):
+    """By-handle stratum with realistic handle state: the handle was opened with a chosen buffer size and has been
+    used (seek/write/read) before the attribute change, so writes may still sit in its write buffer and read-ahead
+    may be buffered. Twin = a local Python file object given the same calls (truncate on it implies a flush) plus the
+    os calls; bytes and stat are compared after both are closed."""
+    rng = ctx.rng
+    name = "b%d" % idx
+    served, twin = os.path.join(root_s, name), os.path.join(root_t, name)
+    size = rng.choice([0, 10, 100, 1000, 5000, 40000, 70000, rng.randint(0, 3000)])
+    data = rng.randbytes(size)
+    m0 = rng.choice([0o644, 0o600, 0o666])
+    t0 = (rng.randrange(1, 1 << 31), rng.randrange(1, 1 << 31))
+    for p in (served, twin):
+        with open(p, "wb") as f:
+            f.write(data)
+        os.chmod(p, m0)
+        os.utime(p, t0)
+    bufsize = rng.choice(BUFSIZES)
+    pre = []
+    for _ in range(rng.randint(0, 3)):
+        r = rng.random()
+        if r < 0.25:
+            pre.append(("read", rng.choice([1, 10, 100, 5000])))
+        else:
+            pre.append(("seek", rng.choice([0, size, size // 2, max(size - 1, 0), rng.randint(0, size + 50)])))
+            pre.append(("write", rng.choice([1, 5, 40, 63, 64, 65, 1000, 33000])))
+    ops = [gen_op(rng, size, "file", am_root) for _ in range(rng.randint(1, 2))]
+    if rng.random() < 0.5:
+        ops[0] = gen_op(rng, size, "file", am_root)
+        while ops[0][0] != "truncate":
+            ops[0] = gen_op(rng, size, "file", am_root)
+    desc = dict(kind="file", by="handle (buffered, used)", bufsize=bufsize, size=size, pre=pre, ops=ops,
+                transport=transport)
+    ctx.case(("buffered", bufsize, size, tuple(pre), tuple(ops), transport), sample=desc if idx % 41 == 5 else None)
+    fobj = lf = None
+    pending = readahead = False
+    try:
+        fobj = client.open("/" + name, "r+b", bufsize)
+        lf = open(twin, "r+b", buffering=(-1 if bufsize in (-1, 1) else bufsize))
+        for st in pre:
+            if st[0] == "seek":
+                fobj.seek(st[1])
+                lf.seek(st[1])
+            elif st[0] == "write":
+                blob = rng.randbytes(st[1]).replace(b"\n", b"x")
+                fobj.write(blob)
+                lf.write(blob)
+            else:
+                fobj.read(st[1])
+                lf.read(st[1])
+        for op in ops:
+            # harness-side observation of the handle's buffers, used for counters and signatures only
+            pend = len(fobj._wbuffer.getvalue()) > 0
+            rdah = len(fobj._rbuffer) > 0
+            pending, readahead = pending or pend, readahead or rdah
+            ctx.count("buffered_handle_ops")
+            ctx.count("buffered_handle_%s" % op[0])
+            if pend:
+                ctx.count("buffered_handle_ops_with_unflushed_writes")
+                if op[0] == "truncate":
+                    ctx.count("buffered_handle_truncate_with_unflushed_writes")
+            if rdah:
+                ctx.count("buffered_handle_ops_with_readahead")
+            try:
+                if op[0] == "truncate":
+                    lf.truncate(op[1])
+                else:
+                    apply_os(op, twin)
+            except OSError:
+                pass
+            try:
+                apply_sftp(op, fobj, True, "/" + name)
+            except (IOError, OSError):
+                pass
+            ctx.count("sftp_attr_calls")
+        fobj.close()
+        fobj = None
+        lf.close()
+        lf = None
+        s, t = snap(served), snap(twin)
+        cs, ct = content(served), content(twin)
+        ctx.count("buffered_handle_final_comparisons")
+        state = "unflushed writes in the handle's buffer" if pending else \
+            "read-ahead buffered in the handle" if readahead else "nothing buffered"
+        kinds = "truncate" if any(o[0] == "truncate" for o in ops) else "+".join(sorted({o[0] for o in ops}))
+        wit = dict(case=desc, served=s, twin=t, served_len=len(cs) if isinstance(cs, bytes) else cs,
+                   twin_len=len(ct) if isinstance(ct, bytes) else ct,
+                   first_diff=next((i for i, (a, b) in enumerate(zip(cs, ct)) if a != b), None)
+                   if isinstance(cs, bytes) and isinstance(ct, bytes) else None)
+        if cs != ct or s.get("size") != t.get("size"):
+            ctx.violation("%s on a handle with %s: file bytes/size after close differ from a local file object"
+                          % (kinds, state),
+                          "served file has %s bytes, the local twin %s" % (wit["served_len"], wit["twin_len"]), wit)
+            return
+        for f in ("mode", "uid", "gid"):
+            if s[f] != t[f]:
+                ctx.violation("%s on a handle with %s: st_%s differs from the twin" % (kinds, state, f),
+                              "st_%s %r vs %r" % (f, s[f], t[f]), wit)
+                return
+        if not any(st[0] in ("write", "read") for st in pre) and all(o[0] != "truncate" for o in ops) \
+                and ops[-1][0] == "utime":
+            ctx.count("time_value_comparisons")
+            if (s["atime"], s["mtime"]) != (t["atime"], t["mtime"]):
+                ctx.violation("utime on an open handle: times differ from the os.utime twin", "times differ", wit)
+    finally:
+        for f in (fobj, lf):
+            if f is not None:
+                try:
+                    f.close()
+                except Exception:
+                    pass
+        for p in (served, twin):
+            try:
+                os.remove(p)
+            except OSError:
+                pass
+
+
 def run_pipe(ctx, n, am_root):
     done = 0
     while done < n:
@@ -241,7 +362,10 @@ def run_pipe(ctx, n, am_root):
             bench = MonBench(root_s)
             p0 = bench.npackets()
             for _ in range(min(150, n - done)):
-                one_case(ctx, bench.client, root_s, root_t, done, am_root)
+                if done % 4 == 3:
+                    buffered_handle_case(ctx, bench.client, root_s, root_t, done, am_root)
+                else:
+                    one_case(ctx, bench.client, root_s, root_t, done, am_root)
                 done += 1
             pk = bench.packets_from(p0)
             ctx.count("wire_setstat_requests", sum(1 for p in pk if p["dir"] == "c2s" and p["type"] == CMD["SETSTAT"]))
@@ -270,7 +394,10 @@ def run_ssh(ctx, n, am_root):
             return
         sftp = paramiko.SFTPClient.from_transport(p.tc)
         for i in range(n):
-            one_case(ctx, sftp, root_s, root_t, 100000 + i, am_root, transport="ssh")
+            if i % 4 == 3:
+                buffered_handle_case(ctx, sftp, root_s, root_t, 100000 + i, am_root, transport="ssh")
+            else:
+                one_case(ctx, sftp, root_s, root_t, 100000 + i, am_root, transport="ssh")
             ctx.count("ssh_cases")
         sftp.close()
     finally:
@@ -286,10 +413,13 @@ def run(ctx):
     if not ctx.quick and ctx.shard % 4 == 0:
         ctx.guard(run_ssh, ctx, 60, am_root)
     ctx.require("sftp_attr_calls", ctx.pick(3000, 40000))
-    ctx.require("stat_comparisons", ctx.pick(3000, 40000))
-    ctx.require("content_comparisons", ctx.pick(2000, 30000))
+    ctx.require("stat_comparisons", ctx.pick(2500, 30000))
+    ctx.require("content_comparisons", ctx.pick(2000, 25000))
     ctx.require("truncate_contents_equal", ctx.pick(150, 2000))
-    ctx.require("wire_setstat_requests", ctx.pick(1000, 10000))
+    ctx.require("buffered_handle_final_comparisons", ctx.pick(500, 8000))
+    ctx.require("buffered_handle_truncate_with_unflushed_writes", ctx.pick(60, 800))
+    ctx.require("buffered_handle_ops_with_readahead", ctx.pick(20, 300))
+    ctx.require("wire_setstat_requests", ctx.pick(800, 8000))
     ctx.require("wire_fsetstat_requests", ctx.pick(1000, 10000))
     for k in ("chmod", "chown", "utime", "truncate"):
         ctx.require("ops_%s_by path" % k, ctx.pick(100, 1000))
